@@ -1,4 +1,5 @@
 import MesonModel.Version.Model
+import MesonModel.Version.Gate
 import Driver.Proto
 namespace Driver.Version
 open MesonModel.Version Driver
@@ -25,6 +26,49 @@ def parseRange (f : String) : Range :=
               (if xf == "1" then some (tokenize (decodeStr xs)) else none) (xe == "1") (ie == "1")
   | _ => {}
 
+
+/-! `gate` programs: tokens separated by `;` — `P<n>` probe, `I` opens an if statement, `C<0|1>:<checks>` opens a
+clause (truth value, comma separated encoded constraint strings of its meson.version().version_compare call,
+empty = no such call), `E` opens the else block, `F` closes the statement. -/
+
+instance : Inhabited GBlock := ⟨.nil⟩
+instance : Inhabited GClauses := ⟨.els .nil⟩
+
+mutual
+  partial def parseBlock (ts : List String) : GBlock × List String :=
+    match ts with
+    | [] => (.nil, [])
+    | t :: rest =>
+      if t.startsWith "P" then
+        let (b, r) := parseBlock rest
+        (.cons (.probe ((t.drop 1).toString.toNat?.getD 0)) b, r)
+      else if t == "I" then
+        let (cs, r1) := parseClauses rest
+        let (b, r2) := parseBlock r1
+        (.cons (.ifs cs) b, r2)
+      else (.nil, ts)
+  partial def parseClauses (ts : List String) : GClauses × List String :=
+    match ts with
+    | [] => (.els .nil, [])
+    | t :: rest =>
+      if t.startsWith "C" then
+        let val := (t.drop 1).toString.startsWith "1"
+        let checks := decodeStrList ((t.splitOn ":").getD 1 "")
+        let own := if checks.isEmpty then none else some (versionCheckToRange checks)
+        let (b, r1) := parseBlock rest
+        let (cs, r2) := parseClauses r1
+        (.cons ⟨own, val⟩ b cs, r2)
+      else if t == "E" then
+        let (b, r1) := parseBlock rest
+        match r1 with
+        | "F" :: r2 => (.els b, r2)
+        | _ => (.els b, r1)
+      else if t == "F" then (.els .nil, rest)
+      else (.els .nil, ts)
+end
+
+def showLog (l : GLog) : String := "&".intercalate (l.map (fun p => s!"{p.1}:{showRange p.2}"))
+
 def showOptBool : Option Bool → String
   | none => "None" | some true => "True" | some false => "False"
 
@@ -46,6 +90,14 @@ def handle (cmd : String) (fs : List String) : String :=
   | "c2r", [cs, st] => showRange (versionCheckToRange (decodeStrList cs) (parseRange st))
   | "cwm", [c, m] => boolStr (condWithMin (decodeStr c) (decodeStr m))
   | "cwmr", [r, m] => boolStr (condWithMinRange (parseRange r) (decodeStr m))
+  | "gate", [pv, prog] =>
+    let base := versionCheckToRange [decodeStr pv]
+    let (b, _) := parseBlock ((prog.splitOn ";").filter (fun t => !t.isEmpty))
+    showLog (runBlock b base none).1
+  | "gateh", [pv, prog] =>
+    let base := versionCheckToRange [decodeStr pv]
+    let (b, _) := parseBlock ((prog.splitOn ";").filter (fun t => !t.isEmpty))
+    showLog (runBlockH b base none).1
   | _, _ => "bad-op"
 
 end Driver.Version
